@@ -49,17 +49,21 @@ def new : V := .obj "HelloElemHeader" [.num 1, .num 4]
 end HelloElemHeader
 
 namespace HelloElemVersionBitmap
+/-- 4 + 4·|bitmaps| rounded up to a multiple of 8 (all in uint16) -/
 def len : V → R UInt16
-  | .obj "HelloElemVersionBitmap" [_, .list bms] => .ok (4 + n16 (bms.length * 4))
+  | .obj "HelloElemVersionBitmap" [_, .list bms] => .ok ((4 + n16 (bms.length * 4) + 7) / 8 * 8)
   | _ => .panic
 def lenM (v : V) : R (UInt16 × V) := do let l ← len v; same l v
+/-- `h.Length = 4 + 4·|bitmaps|` is stored, then header and bitmaps are written into `make([]byte, Len())` (the padding
+    stays zero) -/
 def marshalM (v : V) : R (Bytes × V) :=
   match v with
-  | .obj "HelloElemVersionBitmap" [hdr, .list bms] => do
+  | .obj "HelloElemVersionBitmap" [.obj "HelloElemHeader" [ty, _], .list bms] => do
     let l ← len v
+    let hdr := V.obj "HelloElemHeader" [ty, V.u16 (4 + n16 (bms.length * 4))]
     let hb ← HelloElemHeader.bytes hdr
     let bs ← fill l.toNat (pCopy hb :: bms.map (fun b => pU32 b.asNat))
-    same bs v
+    .ok (bs, .obj "HelloElemVersionBitmap" [hdr, .list bms])
   | _ => .panic
 /-- NewHelloElemVersionBitmap(): one bitmap 0x12, length 8 -/
 def new : V := .obj "HelloElemVersionBitmap" [.obj "HelloElemHeader" [.num 1, .num 8], .list [.num 18]]
